@@ -57,6 +57,16 @@ def hash_strings_curve(g, seed, tier):
     budget = 600 if tier == "quick" else 4000
     for k, x0 in find_miss_runs(g, seed, 6, budget if g == 1 else budget // 3):
         out.append((ref.coord_bytes(x0, g), "miss-run-%d" % k))
+    # long runs found once by an offline search (2^22 consecutive candidates): x0 followed by 15..19 x-coordinates that are not on the
+    # curve (a run of k occurs with probability 2^-k; the model re-derives every run length, nothing is taken on trust).  A bounded
+    # retry loop, a narrow counter or a "give up" path in try-and-increment shows at these inputs; starting inside a run gives every
+    # shorter length too
+    LONG = {1: [6000296581, 9000012001, 3000005518, 1000031948], 2: [(7000071093, 19088743), (3000056730, 19088743)]}[g]
+    for x0 in LONG:
+        for skip in (0, 1, 2, 3):
+            xs = (x0 + skip) if g == 1 else (x0[0] + skip, x0[1])
+            bs = ref.coord_bytes(xs, g)
+            out.append((bs, "miss-run-%d" % ref.hash_to_curve(bs, g)[1]))
     B = [0, 1, 2, q - 1, q - 2] + alpha.fillers(seed, "hc%d" % g, 3, q)
     for v in B:
         if g == 1:
@@ -415,7 +425,7 @@ def replay(ctx, case):
 def finish(merged, cov):
     o = merged.outcomes
     for need in ("hash:scalar:scalar", "hash:g1:all-zero", "hash:g2:top-bits", "hash:id:all-zero", "sampling:g1_random:dev2", "sampling:g2_random:dev2",
-                 "sampling:random_zpstar_powers:dev2", "sampling:gt_multiply_random:dev1"):
+                 "sampling:random_zpstar_powers:dev2", "sampling:gt_multiply_random:dev1", "hash:g1:miss-run-19", "hash:g1:miss-run-16", "hash:g2:miss-run-18", "hash:id:miss-run-16"):
         if not o.get(need):
             return "outcome class %s never exercised" % need
     if not any(k.startswith("hash:g1:miss-run") for k in o):
